@@ -7,6 +7,10 @@ pub mod stdspecs {
     use super::spec::*;
     verus! {
 
+    // ---- `impl<T> From<T> for T` is the identity (used by the crate's try_opt! macro) ----------------------
+    pub assume_specification<T>[ <T as core::convert::From<T>>::from ](t: T) -> (r: T)
+        ensures r == t;
+
     // ---- String::from_utf8_lossy / Cow<str> -> String ------------------------------------------------
     /// String::from_utf8_lossy as an uninterpreted function of the bytes
     pub uninterp spec fn lossy(b: Seq<u8>) -> Seq<char>;
